@@ -116,14 +116,16 @@ class Index:
         compiled_matches = []
         for match in matches:
             try:
-                compiled_matches.append(self.to_key(match))
+                # include the separator, so that a value doesn't also match
+                # every longer value it is a prefix of
+                compiled_matches.append(self.to_key(match) + b"\x00")
             except ValueError:
                 pass
         if since is not None:
             since = since.to_bytes(4, "big")
         if until is not None:
             until = until.to_bytes(4, "big")
-            add_time = b"\x00%s\x00" % until
+            add_time = b"%s\x00" % until
         else:
             add_time = b""
 
@@ -146,7 +148,7 @@ class Index:
             # matches are scanned from the largest to the smallest: stop below the smallest
             stop = compiled_matches[-1]
             if since:
-                stop += b"\x00" + since
+                stop += since
             match, skipped = next_match()
         else:
             match = None
